@@ -103,6 +103,13 @@ impl BeneficiaryReward {
 pub(crate) struct DeferredBeneficiaryReward(U256);
 
 impl DeferredBeneficiaryReward {
+    /// Build a reward for component-level monitors; `amount` must be non-zero.
+    #[cfg(feature = "verif")]
+    pub(crate) fn verif_new(amount: U256) -> Self {
+        assert!(!amount.is_zero(), "zero rewards are never deferred");
+        Self(amount)
+    }
+
     /// Apply this reward using revm's checked-add semantics.
     ///
     /// Overflow leaves the existing balance unchanged. The non-zero reward materializes an absent
